@@ -30,21 +30,28 @@ def dependency_units(pid):
     shape = ('connect-shape', lambda: c09.ConnectShape())
     wlock = ('write_packet-lock', lambda: c12.WritePacketLock())
     buf = ('PacketBuffer', lambda: c02.BufferContract())
+    switch = ('write-switch', lambda: c01.WriteSwitch())
     table = {
         'C01': [gendef],
         'C07': [wlock, wpkt, ('read-frame', lambda: c01.ReadFrame()), ('read-segmentation', lambda: c01.Segmentation())],
-        'C05': [order, wlock, wpkt, ('read-frame', lambda: c01.ReadFrame()), ('Position.send', lambda: c04.PositionSend()), ('Position.any-word', lambda: c04.PositionAnyWord()),
+        'C05': [order, wlock, wpkt, frame, ('read-frame', lambda: c01.ReadFrame()), ('Position.send', lambda: c04.PositionSend()), ('Position.any-word', lambda: c04.PositionAnyWord()),
                 ('ChunkSectionPos', lambda: c04.SectionPos()), ('BlockRecord', lambda: c04.BlockRecord()),
                 ('flag-names', lambda: c20.Flags())],
         'C06': [order, ('context-holds-a-protocol-number', lambda: c09.InitVersions())],
         'C09': [life, connect, string, trail, wpkt],
-        'C10': [hsh, frame, string, trail, vread, gendef],
+        'C10': [hsh, frame, string, trail, vread, gendef, switch],
         'C11': [wpkt, life, order, connect, shape],
-        'C12': [wpkt, gendef, vsend],
+        'C12': [wpkt, gendef, vsend, switch],
         'C14': [life, connect, shape, wpkt, wlock],
         'C15': [shape, life, buf, connect, wpkt],
         'C16': [shape, wpkt, wlock],
         'C18': [hsh, frame, gendef, vsend],
         'C17': [frame, gendef, vsend],
     }
-    return [_mk(pid, name, f) for name, f in table.get(pid, [])]
+    out = [_mk(pid, name, f) for name, f in table.get(pid, [])]
+    # properties that speak about what reaches the wire while several threads run claim the whole lock discipline
+    if pid in ('C10', 'C11', 'C14', 'C18'):
+        have = {u.name.rsplit('.', 1)[-1] for u in out}
+        for u in c12.lock_units(pid, '%s.dep.lock' % pid):
+            out.append(u)
+    return out
